@@ -5,6 +5,7 @@ Proofs/{Mat3,Affine,Scene,Remesh}.lean at K = ℚ.
 import TrimeshVerif.Model.GeomRat
 import TrimeshVerif.Proofs.Scene
 import TrimeshVerif.Proofs.Remesh
+import TrimeshVerif.Proofs.ToSize
 import Mathlib.Algebra.Order.Field.Rat
 namespace TV.GeomRat
 open TV.Mat3 TV.Affine
@@ -42,6 +43,21 @@ theorem childrenR_eq (a b c : V) : childrenR a b c = TV.Remesh.children a b c :=
   rfl
 theorem childFacesN_eq (mid : Nat → Nat → Nat) (f : Face) : childFacesN mid f = TV.Remesh.childFaces mid f := by
   rfl
+
+theorem maxEdge2R_eq (t : Tri) : maxEdge2R t = TV.ToSize.maxEdge2 t := by
+  obtain ⟨⟨a1, a2, a3⟩, ⟨b1, b2, b3⟩, ⟨c1, c2, c3⟩⟩ := t
+  rfl
+
+/-- the size-bounded subdivision the driver runs is the one of `C18_to_size` -/
+theorem toSizeR_eq (m2 : Rat) : ∀ (fuel : Nat) (t : Tri), toSizeR m2 fuel t = TV.ToSize.toSize m2 fuel t
+  | 0, t => by
+    unfold toSizeR TV.ToSize.toSize TV.ToSize.small
+    rw [maxEdge2R_eq]
+  | fuel + 1, t => by
+    unfold toSizeR TV.ToSize.toSize TV.ToSize.small
+    rw [maxEdge2R_eq, childrenR_eq]
+    have : toSizeR m2 fuel = TV.ToSize.toSize m2 fuel := funext (toSizeR_eq m2 fuel)
+    rw [this]
 
 /-! ### consequences stated on the executable definitions (what the driver evaluates) -/
 
